@@ -232,6 +232,8 @@ def catalogue():
             label="NetworkNode", props={"Site": V["v"]}, comps=comps(((ComponentType.SharedNIC, None), (ComponentType.GPU, "Tesla T4"), (ComponentType.GPU, "Tesla T4")))),
         "cbm.get_matching_nodes_with_components[one comp, no model]": lambda e, V: e["cbm"].get_matching_nodes_with_components(
             label="NetworkNode", props={"Site": V["v"]}, comps=comps(((ComponentType.SharedNIC, None),))),
+        "cbm.get_matching_nodes_with_components[empty comps]": lambda e, V: e["cbm"].get_matching_nodes_with_components(
+            label="NetworkNode", props={"Site": V["v"]}, comps=comps(())),
         "cbm.get_matching_nodes_with_components[no props]": lambda e, V: e["cbm"].get_matching_nodes_with_components(
             label="NetworkNode", props={}, comps=comps()),
         "cbm.get_intersite_links": lambda e, V: e["cbm"].get_intersite_links(),
